@@ -805,7 +805,9 @@ def step (s : St) (op : List String) (impl : Option (List String)) : St × Strin
         match bs.mapM nat? with
         | some bps =>
           -- an invalid vector is refused and the object is unchanged (in particular not "stale")
-          if !(breaksOk o.tab.T bps) then (s, showAns (runOp o (.setBreaks bps)).2, "-")
+          if !(breaksOk o.tab.T bps) then
+            (s, showAns (runOp o (.setBreaks bps)).2,
+              match impl with | some i => if isExc i then "ok" else "FAIL:invalid_breaks_refused" | none => "-")
           else update s k o o.tab (.setBreaks bps) impl
         | none => (s, "bad-op", "-")
       | "setp", [name, v] =>
